@@ -457,7 +457,9 @@ async fn probe_login(label: &str, addr: SocketAddr, proxy: bool, salt: u64, pati
         end.send(&if salt % 2 == 0 { tcp::proxy_v1(src, addr) } else { tcp::proxy_v2(src, addr) });
     }
     let c0 = Instant::now();
-    let claimed = Ident { name: format!("Probe{}", salt % 10_000), uuid: 0x5eed_0000_0000_0000_0000_0000_0000_0000u128 | salt as u128 };
+    // the probe beside the stallers logs in under the name the first staller claims (a name is anybody's to
+    // claim before the session service has spoken): what a stalled connection holds is its own
+    let claimed = Ident { name: if label == "probe-login" { "Staller0".to_string() } else { format!("Probe{}", salt % 10_000) }, uuid: 0x5eed_0000_0000_0000_0000_0000_0000_0000u128 | salt as u128 };
     let plan = scripts::plan(scripts::login_script(2, "probe.example.org", addr.port(), &claimed, "en_us"), false, [7u8; 16], patience.saturating_sub(started.elapsed()));
     let log = Client::new(&end, plan).run().await;
     end.kill();
